@@ -222,7 +222,7 @@ def _stateful_whole(n_eqns):
 def _incremental_step(k_in, m_out, n_sub, with_handler):
     tag = f"[in={k_in},out={m_out},subfuns={n_sub},handler={'handles-nothing' if with_handler else 'None'}]"
 
-    @task(f"incremental.step{tag}", props=["C09"], functions=FUNCS09)
+    @task(f"incremental.step{tag}", props=["C09", "C15"], functions=FUNCS09)
     def t(E):
         V = Vars(E)
         T = E.I.T
@@ -279,7 +279,8 @@ def _incremental_step(k_in, m_out, n_sub, with_handler):
                     z3.Implies(is_last, T.d_primal(cell) == ou))
             E.prove(f"C09.eval_jaxpr_incremental.step.written_cell_is_a_diff_tree{tag}[{j}]", z3.Implies(is_last, T.d_is_tree(cell)))
             E.prove(f"C09.eval_jaxpr_incremental.step.output_nochange_only_if_every_input_nochange{tag}[{j}]",
-                    z3.Implies(z3.And(is_last, T.d_nc_all(cell)), z3.Or(all_nc, noleaves)))
+                    z3.Implies(z3.And(is_last, T.d_nc_all(cell)), z3.Or(all_nc, noleaves)),
+                    also=["C15"])       # (C15: Dimap.edit tags pre(args) and post(...) by running them through this interpreter)
         E.refutable(f"incremental.step{tag}", z3.Select(after.val, cnt[0]) == z3.Select(val0, cnt[0]))
     return t
 
